@@ -12,6 +12,8 @@ AST = nested python tuples mirroring CapyCore:
          ("struct", ty, (es...)) ("field", a, k) ("let", x, ty, mut, e) ("assign", lhs, rhs) ("print", a)
          ("defer", e) ("inject", ty, k, e) ("switch", ty, e, x, (arms...), dflt|None) ("isvar", e, k)
          ("unwrap", e, k) ("try", e)
+         ("cplen", n) / ("cplenlit", ty, z): the LENGTH of a local array `[c<n>]u8` (a compile-time use of the comptime
+         integer parameter n; in the model it is `usize.(c<n>)`; after substitution `[z]u8`)
   cvals  ("clit", ty, z) | ("cref", n)
   program {"funs": [{"tparams": n, "cparams": [ty], "params": [(x, ty)], "ret": ty, "body": expr}], "main": k}
 
@@ -131,6 +133,12 @@ def ser_expr(e, out):
         out.append("unit")
     elif k in ("cp", "var", "continue"):
         out += [k, str(e[1])]
+    elif k == "cplen":
+        out += ["cast", "usize", "cp", str(e[1])]
+    elif k == "cplenlit":
+        out += ["cast", "usize", "int"]
+        ser_ty(e[1], out)
+        out.append(hexz(e[2]))
     elif k in ("bin", "cmp"):
         out += [k, e[1]]
         ser_expr(e[2], out)
@@ -315,8 +323,10 @@ def parts(e):
     k = e[0]
     if k == "int":
         return [e[1]], []
-    if k in ("bool", "unit", "cp", "var", "continue"):
+    if k in ("bool", "unit", "cp", "var", "continue", "cplen"):
         return [], []
+    if k == "cplenlit":
+        return [e[1]], []
     if k in ("bin", "cmp"):
         return [], [e[2], e[3]]
     if k == "un":
@@ -488,6 +498,10 @@ class Printer:
             return "{}"
         if k == "cp":
             return "c%d" % e[1]
+        if k == "cplen":
+            return "{ a_ : [c%d]u8; a_.len }" % e[1]
+        if k == "cplenlit":
+            return "{ a_ : [%d]u8; a_.len }" % e[2]
         if k == "var":
             return "v%d" % e[1]
         if k in ("bin", "cmp"):
@@ -719,6 +733,8 @@ def type_of(prog, f, e, G, tenv=None):
         return e[1]
     if k in ("bool", "cmp", "land", "lor"):
         return BOOL
+    if k in ("cplen", "cplenlit"):
+        return USIZE
     if k == "cp":
         return f["cparams"][e[1]]
     if k == "var":
@@ -829,6 +845,10 @@ def subst_expr(ts, cs, e):
         return ("int", subst_ty(ts, e[1]), e[2])
     if k == "cp":
         return ("int", cs[e[1]][0], cs[e[1]][1]) if e[1] < len(cs) else e
+    if k == "cplen":
+        return ("cplenlit", cs[e[1]][0], cs[e[1]][1]) if e[1] < len(cs) else e
+    if k == "cplenlit":
+        return ("cplenlit", subst_ty(ts, e[1]), e[2])
     if k in ("bool", "unit", "var", "continue"):
         return e
     if k in ("bin", "cmp"):
@@ -1338,6 +1358,8 @@ class Gen:
                 cargs.append(("cref", self.r.choice(own)))
             else:
                 z = self.lit(ct2)[2] if ct2[0] == "i" else self.r.range(0, 100)
+                if ct2 == USIZE:
+                    z = self.r.range(1, 40)       # usize comptime parameters are also used as array lengths
                 # `f(-5)` is "not a constant value" for a comptime parameter: comptime arguments are plain literals
                 cargs.append(("clit", ct2, z if z >= 0 else -(z + 1)))
         return targs, tuple(cargs)
@@ -1727,30 +1749,8 @@ class Gen:
         return {"funs": funs, "main": nf}
 
 
-def generic_programs(rng, opts=None):
-    """C16: (A, B, info).  A: helpers, 1-2 generic functions (1-3 comptime parameters: types, integers),
-    main instantiating the last generic function 1-4 times (equal and different comptime arguments,
-    interleaved).  B: the same program with every call of main redirected to a hand-substituted copy
-    (subst_fun) appended to the table.  info: list of (generic index, copy index, targs, cargs)."""
-    g = Gen(rng, opts, int_names=[n for n in INT_NAMES if INTS[n][1] < 128], max_funs=2, max_stmts=4)
+def finish_generic_program(g, funs, gi):
     r = g.r
-    g.gen_struct_types()
-    if not g.structs:
-        g.structs.append(("struct", 1, (T("u8"), T("i64"))))
-    g.gen_enum_types()
-    g.dists = [("dist", i + 1, r.choice(["i32", "u8", "i64", "u16", "usize", "i8"])) for i in range(r.range(1, 2))]
-    funs = []
-    for k in range(r.range(0, 1)):
-        funs.append(g.function(len(funs), False))
-    ngen = r.range(1, 2)
-    for k in range(ngen):
-        ntp = r.range(0, 2)
-        nop = 1 if (ntp >= 1 and r.chance(1, 2)) else 0      # the last type parameter is used opaquely
-        ncp = r.range(0 if ntp else 1, 3 - ntp)
-        cps = [(("tvar", r.below(ntp)) if ntp and r.chance(1, 3) and g.o["dependent_comptime_param_types"]
-                else T(r.choice(["u8", "i32", "usize", "i16", "u64"]))) for _ in range(ncp)]
-        funs.append(g.function(len(funs), False, generic=(ntp, cps, nop)))
-    gi = len(funs) - 1
     # instantiations
     insts = []
     for _ in range(r.range(1, 3)):
@@ -1796,6 +1796,135 @@ def generic_programs(rng, opts=None):
     mainB["body"] = ("block", None, VOID, tuple(bs), ("unit",))
     B = {"funs": funs + [mainB] + [c[1] for c in copies], "main": len(funs)}
     return A, B, info, g.hist
+
+
+def fingerprint_stmts(g, ntp_int, cps):
+    """Statements that USE every comptime parameter at compile time and print what they see:
+    for an integer-like type parameter T the wrap-around behaviour of locals of type T (width and signedness),
+    for a usize parameter n the length of a local `[n]u8`, plus the run-time copy of every value parameter."""
+    ss = []
+    for i in range(ntp_int):
+        tv = ("tvar", i)
+        v = g.fresh()
+        ss.append(("let", v, tv, True, ("int", tv, 100)))
+        ss.append(("assign", ("var", v), ("bin", "add", ("var", v), ("int", tv, 100))))
+        ss.append(("print", ("cast", T("i64"), ("var", v))))
+        for sh in (7, 15, 31, 40, 63):
+            ss.append(("print", ("cast", T("i64"), ("bin", "shl", ("int", tv, 1), ("int", tv, sh)))))
+    for j, ct in enumerate(cps):
+        if ct == USIZE:
+            ss.append(("print", ("cplen", j)))
+        ss.append(("print", ("cast", T("i64"), ("cp", j)) if ct[0] == "tvar" else ("cp", j)))
+    return ss
+
+
+def with_prefix(f, ss):
+    b = f["body"]
+    f = dict(f)
+    f["body"] = ("block", b[1], b[2], tuple(ss) + tuple(b[3]), b[4])
+    return f
+
+
+def forwarding_call(g, callee, n_own_tvars, own_cps):
+    """A call of generic function `callee` from inside another generic function that forwards the caller's own comptime
+    parameters in a random permutation / duplication, mixed with concrete types and literals."""
+    r = g.r
+    ntp, cps, nop = g.gsigs[callee]
+    own_t = [("tvar", i) for i in range(n_own_tvars)]
+    conc = [T(n) for n in ("u8", "i8", "u16", "i16", "u32", "i32", "u64", "i64")]
+    ta = []
+    order = list(own_t)
+    r.shuffle(order)
+    for i in range(ntp - nop):
+        if order and r.chance(3, 4):
+            ta.append(order[i % len(order)] if r.chance(3, 4) else r.choice(own_t))
+        else:
+            ta.append(r.choice(conc))
+    ta = tuple(ta) + tuple(r.choice(g.structs) for _ in range(nop))
+    own_us = [j for j, ct in enumerate(own_cps) if ct == USIZE]
+    r.shuffle(own_us)
+    ca = []
+    for i, ct in enumerate(cps):
+        ct2 = subst_ty(list(ta), ct)
+        same = [j for j, mt in enumerate(own_cps) if mt == ct2]
+        if ct2 == USIZE and own_us and r.chance(3, 4):
+            ca.append(("cref", own_us[i % len(own_us)] if r.chance(3, 4) else r.choice(own_us)))
+        elif same and r.chance(1, 2):
+            ca.append(("cref", r.choice(same)))
+        else:
+            z = r.range(1, 40) if ct2 == USIZE else (r.range(0, 100))
+            ca.append(("clit", ct2, z))
+    ps, ret, rec = g.sigs[callee]
+    old_t, old_c = g.tvars, g.cparams
+    g.tvars, g.cparams = own_t, list(own_cps)
+    ctx = Ctx(callee + 1, VOID)
+    args = []
+    for q, pt in enumerate(ps):
+        pt = subst_ty(list(ta), pt)
+        args.append(("int", T("u8"), r.range(0, 2)) if rec and q == 0 else g.expr(ctx, pt, 3, pure=True))
+    rt = subst_ty(list(ta), ret)
+    v = g.fresh()
+    ss = [("let", v, rt, False, ("call", callee, ta, tuple(ca), tuple(args)))] if rt != VOID else [("call", callee, ta, tuple(ca), tuple(args))]
+    if rt != VOID:
+        ctx.vars.append((v, rt, False, False))
+        ss += g.use(ctx, v, rt)
+    g.tvars, g.cparams = old_t, old_c
+    g.count("forwarding-call")
+    return ss
+
+
+def forwarding_programs(rng, opts=None):
+    """C16: chains of 2-3 generic functions in which each level forwards its own comptime parameters to the next in
+    permuted / duplicated order (inner(B, A), inner(A, A), mixed with literals), and every level uses each of its
+    parameters at compile time (fingerprint_stmts).  Same result shape as generic_programs."""
+    g = Gen(rng, opts, int_names=[n for n in INT_NAMES if INTS[n][1] < 128], max_funs=2, max_stmts=3)
+    r = g.r
+    g.structs.append(("struct", 1, (T("u8"), T("i64"))))
+    g.dists = [("dist", 1, r.choice(["i32", "u8", "i64", "u16", "i8"]))]
+    funs = []
+    depth = r.range(2, 3)
+    prev = None
+    for lvl in range(depth):
+        ntp = r.range(1, 3) if r.chance(3, 4) else 0
+        ncp = r.range(1, 3) if (ntp == 0 or r.chance(2, 3)) else 0
+        cps = [USIZE if r.chance(3, 4) else T(r.choice(["u8", "i32", "i16"])) for _ in range(ncp)]
+        fidx = len(funs)
+        f = g.function(fidx, False, generic=(ntp, cps, 0))
+        ss = fingerprint_stmts(g, ntp, cps)
+        if prev is not None:
+            for _ in range(r.range(1, 2)):
+                ss += forwarding_call(g, prev, ntp, cps)
+        funs.append(with_prefix(f, ss))
+        prev = fidx
+    gi = len(funs) - 1
+    return finish_generic_program(g, funs, gi)
+
+
+def generic_programs(rng, opts=None):
+    """C16: (A, B, info).  A: helpers, 1-2 generic functions (1-3 comptime parameters: types, integers),
+    main instantiating the last generic function 1-4 times (equal and different comptime arguments,
+    interleaved).  B: the same program with every call of main redirected to a hand-substituted copy
+    (subst_fun) appended to the table.  info: list of (generic index, copy index, targs, cargs)."""
+    g = Gen(rng, opts, int_names=[n for n in INT_NAMES if INTS[n][1] < 128], max_funs=2, max_stmts=4)
+    r = g.r
+    g.gen_struct_types()
+    if not g.structs:
+        g.structs.append(("struct", 1, (T("u8"), T("i64"))))
+    g.gen_enum_types()
+    g.dists = [("dist", i + 1, r.choice(["i32", "u8", "i64", "u16", "usize", "i8"])) for i in range(r.range(1, 2))]
+    funs = []
+    for k in range(r.range(0, 1)):
+        funs.append(g.function(len(funs), False))
+    ngen = r.range(1, 2)
+    for k in range(ngen):
+        ntp = r.range(0, 2)
+        nop = 1 if (ntp >= 1 and r.chance(1, 2)) else 0      # the last type parameter is used opaquely
+        ncp = r.range(0 if ntp else 1, 3 - ntp)
+        cps = [(("tvar", r.below(ntp)) if ntp and r.chance(1, 3) and g.o["dependent_comptime_param_types"]
+                else T(r.choice(["u8", "i32", "usize", "i16", "u64"]))) for _ in range(ncp)]
+        f = g.function(len(funs), False, generic=(ntp, cps, nop))
+        funs.append(with_prefix(f, fingerprint_stmts(g, ntp - nop, cps)))
+    return finish_generic_program(g, funs, len(funs) - 1)
 
 
 # ------------------------------------------------------------------ shrinking candidates
